@@ -169,5 +169,8 @@ def run(prog, rep, tier):
     rep.check("CTOR.roles", ok, fwhere(f4), "self.mean <- mean, self.covariance <- covariance", "constructor stores its arguments in the wrong attributes")
     rep.assume("self.covariance is symmetric (a covariance matrix)")
     rep.assume("equality is over the reals; floating-point accuracy of inv() is not decided")
+    # no branch / index of the computation may depend on the *values* of the moments
+    pattern_method(prog, rep, ND + "conditional", ["mean", "covariance"], rule="NODECISION")
+    pattern_method(prog, rep, ND + "marginal", ["mean", "covariance"], rule="NODECISION")
     rep.require_count("FORMULA", 5)
     rep.require_count("GUARD", 3)
